@@ -42,6 +42,9 @@ def show_addr(a):
     return s
 
 
+_BIT_FORM = [0]
+
+
 def exec_builder(cells, ops, builder=None):
     """cells: library cells of the context DAG. Returns (flags, bits, refs, endcell-hash|'err', builder)."""
     Builder, Address, ExternalAddress = _lib()
@@ -66,7 +69,23 @@ def exec_builder(cells, ops, builder=None):
             elif k == 'by':
                 b.store_bytes(bytes.fromhex(p[1].replace('-', '')))
             elif k == 'bit':
-                b.store_bit(int(p[1]))
+                # every argument form the signature admits (int, bool, '0'/'1', a one-bit array) and the two sibling entry points
+                _BIT_FORM[0] += 1
+                v, form = int(p[1]), _BIT_FORM[0] % 6
+                if form == 0:
+                    b.store_bit(v)
+                elif form == 1:
+                    b.store_bit(bool(v))
+                elif form == 2:
+                    b.store_bit(str(v))
+                elif form == 3:
+                    from pytoniq_core.boc.tvm_bitarray import TvmBitarray
+                    from bitarray import bitarray
+                    b.store_bit(TvmBitarray(1023, bitarray(str(v))))
+                elif form == 4:
+                    b.store_bool(bool(v))
+                else:
+                    b.store_bit_int(v)
             elif k == 'r':
                 b.store_ref(cells[int(p[1])])
             elif k == 'mr':
@@ -81,6 +100,8 @@ def exec_builder(cells, ops, builder=None):
                 b.store_slice(s)
             elif k == 'a':
                 b.store_address(mk_addr(p[1:]))
+            elif k == 'ec':
+                b.end_cell()                      # interim end_cell(): result dropped, the builder goes on
             elif k == 'sn':
                 b.store_snake_bytes(bytes.fromhex(p[1].replace('-', '')))
             elif k == 'd':
